@@ -4,18 +4,27 @@ Relations
   clump     : haptools.clump.clumpstr end to end, called directly or through the `haptools clump` command (SNP-only /
               STR-only / mixed, VCF.gz or PGEN SNPs, HipSTR-style STR VCF.gz or PGEN, Pearson / Exact) on generated
               summary-statistic tables: ties, p in {0, 1}, p around both
-              thresholds, several chromosomes, permuted / renamed / extra columns, '#' header, blank line, constant
-              and missing genotype columns, positions at exactly +-kb.  A hang is reported by the runner as a
-              timeout (Err 12).  Malformed stream: missing header field, short row, unparsable number, variant
-              without / with two genotype records, SNP file with a missing call.
+              thresholds, p1 > 1, several chromosomes, permuted / renamed / extra columns, '#' header, blank line,
+              constant and missing genotype columns, duplicate variant IDs.  --clump-kb: whole and fractional
+              radii (k/1000 for integer k, radii whose size in bp is not a whole number, float64 neighbours of
+              k/1000, radii whose float64 product with 1000 lies one ulp below / above an integer, 1 bp, 0, negative,
+              100 Mb) with variants in LD with the index at floor(kb*1000)-1, floor, ceil, ceil+1 bp on both sides.
+              The window is modelled in the code's float64 arithmetic (agree) and demanded as the rational test
+              |dpos|/1000 < kb (holds).  All six columns of every row and the text of every member are compared.
+              A hang is reported by the runner as a timeout (Err 12).  Malformed stream: missing header field,
+              short row, unparsable number, variant without / with two genotype records, SNP file with a missing
+              call.
   computeld : haptools.clump.ComputeLD called directly on (samples x 2) allele arrays with missing values,
               both LD types; Pearson within 1e-9 of the exact rational r^2, Exact in [0,1] and within 1e-6 of the
-              haplotype-table r^2 when no sample is doubly heterozygous.
+              haplotype-table r^2 when no sample is doubly heterozygous; every number the cubic solver presents
+              as a real root is a root of the model's cubic.
 """
 import itertools
+import math
 import os
 import shutil
 import tempfile
+from decimal import Decimal
 from fractions import Fraction
 
 import numpy as np
@@ -26,11 +35,13 @@ from .core import Relation, err_kind
 
 PROP = "C17"
 CLAIMED = True
-COQ_MODULES = ["PearsonQ", "C17_Model", "C17_Check", "C17_Proofs", "C17_ProofsExact"]
+COQ_MODULES = ["PearsonQ", "Stats", "C17_Model", "C17_Check", "C17_Proofs", "C17_ProofsExact"]
 PROPERTY_MODULE = "C17_Property"
 ALLOWED_AXIOMS = []
 RULE = (
-    "clump: 1-3 chromosomes, 0-8 SNPs and 0-5 STRs on a position grid of multiples of kb*1000 (+-1), p-values from a "
+    "clump: 1-3 chromosomes, 0-8 SNPs and 0-5 STRs placed either on a grid of multiples of floor/ceil(kb*1000) (+-1) or "
+    "around one anchor per chromosome at +-{floor-1, floor, ceil, ceil+1} bp (mostly in LD with the anchor), kb whole / "
+    "fractional / float64-boundary / tiny / large, p-values from a "
     "pool with ties / 0 / 1 / values on both thresholds, 3-12 samples. Non-trivial = a well-formed case producing at "
     "least two clumps or a clump with a member other than its index. computeld: non-trivial = at least 3 samples "
     "left after the missing-call filter and both dosage vectors non-constant. Distinct = distinct canonical JSON."
@@ -44,8 +55,11 @@ TRUSTED = [
     "strings are interned to integers by the harness (sample names order-preservingly)",
 ]
 ASSUMPTIONS = [
-    "clump_is_greedy / clumps_disjoint assume distinct variant IDs (Variant objects are compared by identity in the code)",
-    "index eligibility is p < p1 with p1 <= 1 (DESIGN.md section 10)",
+    "holds_clump / clumps_disjoint_ids / model_meets_checker_spec assume distinct variant IDs (the .clump file names variants by "
+    "ID); the model itself and clumps_disjoint identify a variant by its row, as the code compares Variant objects by identity",
+    "index eligibility is p < p1 and p < 1 (DESIGN.md section 10); for p1 > 1 holds demands p < p1 of an index and p < 1 "
+    "only of what may be left at the end",
+    "positions differ by less than 2^53 (float(|dpos|)/1000.0 is then Python's correctly rounded int/int quotient)",
 ]
 
 HIPSTR_HDR = (
@@ -55,10 +69,46 @@ HIPSTR_HDR = (
     '##INFO=<ID=PERIOD,Number=1,Type=Integer,Description="period">\n'
 )
 P_POOL = ["0", "1e-300", "1e-10", "0.00005", "0.0001", "0.0001", "0.00011", "0.001", "0.001", "0.005", "0.01", "0.01",
-          "0.011", "0.05", "0.5", "0.99", "1", "1.0", "2e-5", "3.5e-4"]
-P1_POOL = ["0.0001", "0.001", "0.01", "0.01", "0.05", "0.05", "0.5", "0.5", "1", "1", "1.5"]
-P2_POOL = ["0.01", "0.05", "1", "0.001", "0.5"]
-KB_POOL = ["0.05", "0.05", "0.1", "0.1", "0.25", "0.25", "1", "1", "2.5", "2.5", "250", "250", "0"]
+          "0.011", "0.05", "0.5", "0.99", "1", "1.0", "2e-5", "3.5e-4", "1.2"]
+P1_POOL = ["0.0001", "0.001", "0.01", "0.01", "0.05", "0.05", "0.5", "0.5", "1", "1", "1.5", "2"]
+P2_POOL = ["0.01", "0.05", "1", "0.001", "0.5", "1.5"]
+KB_POOL = ["0.05", "0.05", "0.1", "0.1", "0.25", "0.25", "1", "1", "2.5", "2.5", "250", "250", "0", "0.3", "0.7", "0.057"]
+# k such that the float64 product (k/1000)*1000 lands one ulp below / above k (int(kb*1000) would be k-1 / a
+# comparison in bp with the product would be off): 2.01 -> 2009.9999999999998, 1.001 -> 1000.9999999999999
+K_PROD_BELOW = [k for k in range(1, 6000) if (k / 1000) * 1000 < k]
+K_PROD_ABOVE = [k for k in range(1, 6000) if (k / 1000) * 1000 > k]
+
+
+def gen_kb(rng):
+    """(--clump-kb as the decimal typed, class label)"""
+    r = rng.random()
+    if r < 0.20:
+        return str(rng.choice(KB_POOL)), "kb:pool"
+    if r < 0.36:
+        return repr(int(rng.integers(1, 5000)) / 1000), "kb:k/1000"
+    if r < 0.50:
+        lst, tag = (K_PROD_BELOW, "below") if rng.random() < 0.6 or not K_PROD_ABOVE else (K_PROD_ABOVE, "above")
+        return repr(int(lst[int(rng.integers(0, len(lst)))]) / 1000), f"kb:k/1000,float-product-{tag}-k"
+    if r < 0.66:
+        k = int(rng.integers(0, 3000))
+        frac = str(rng.choice(["5", "25", "1", "9", "001", "999", "0000001", "49"]))
+        return str(Decimal(f"{k}.{frac}") / 1000), "kb:non-integral-bp"
+    if r < 0.80:
+        x = int(rng.integers(1, 5000)) / 1000
+        for _ in range(int(rng.integers(1, 3))):
+            x = math.nextafter(x, math.inf if rng.random() < 0.5 else -math.inf)
+        return repr(x), "kb:float64-neighbour-of-k/1000"
+    if r < 0.88:
+        return str(rng.choice(["0.001", "0.0005", "0.0001", "0.002", "1e-9", "0.0015"])), "kb:tiny"
+    if r < 0.95:
+        return str(rng.choice(["1000", "10000", "99999.9995", "100000"])), "kb:large"
+    return str(rng.choice(["0", "-1", "-0.001"])), "kb:nonpositive"
+
+
+def kb_bounds(kb):
+    """floor and ceil of the window radius in bp (of the decimal typed; never negative)"""
+    bp = Fraction(kb) * 1000
+    return max(0, math.floor(bp)), max(0, math.ceil(bp))
 R2_POOL = ["0.5", "0.2", "0.8", "0", "0.99", "0.01", "-0.1", "0.3"]
 FIELDS = [{"id": "SNP", "p": "P", "chrom": "CHR", "pos": "POS"},
           {"id": "ID", "p": "p-value", "chrom": "CHROM", "pos": "position"},
@@ -105,17 +155,34 @@ def _snp_col(rng, n, cols):
 
 
 def gen_clump(rng):
-    kb = str(rng.choice(KB_POOL))
-    step = int(Fraction(kb) * 1000)
+    kb, kbclass = gen_kb(rng)
+    lo, hi = kb_bounds(kb)
+    star = rng.random() < 0.6  # one anchor per chromosome, the others at the window boundary around it
     chroms = [str(c) for c in rng.choice(["1", "2", "X", "chr7"], size=int(rng.integers(1, 4)), replace=False)]
     mode = str(rng.choice(["snp", "snp", "str", "mixed", "mixed"]))
     ns = int(rng.integers(1, 9)) if mode != "str" else 0
     nt = int(rng.integers(1, 6)) if mode != "snp" else 0
     ld = "Exact" if (mode == "snp" and rng.random() < 0.3) else "Pearson"
-    # positions: per chromosome a grid around multiples of the window so that |dpos| hits kb*1000 exactly / +-1
+    # positions.  grid: per chromosome around multiples of floor / ceil of the window in bp, so that |dpos| hits the
+    # boundary exactly / +-1.  star: the first variant of a chromosome is its anchor, the others lie at
+    # anchor +- {floor-1, floor, ceil, ceil+1} bp (and a few positions well inside / outside)
     used = set()
+    anchor = {}
 
     def new_pos(c):
+        if star:
+            if c not in anchor:
+                anchor[c] = hi + 2 + int(rng.integers(0, 40))
+                used.add((c, anchor[c]))
+                return anchor[c]
+            offs = [lo - 1, lo, hi, hi + 1, lo - 1, lo, hi, hi + 1, 1, max(1, lo // 2), 2 * hi + 1, lo + hi]
+            for _ in range(60):
+                d = int(offs[int(rng.integers(0, len(offs)))]) * (1 if rng.random() < 0.5 else -1)
+                base = anchor[c] + d
+                if d != 0 and base > 0 and (c, base) not in used:
+                    used.add((c, base))
+                    return base
+        step = hi if rng.random() < 0.5 else lo
         for _ in range(200):
             base = 1000 + step * int(rng.integers(0, 4)) + int(rng.choice([-1, 0, 0, 1, 2, int(rng.integers(0, max(step, 2)))]))
             if base > 0 and (c, base) not in used:
@@ -134,11 +201,20 @@ def gen_clump(rng):
     if ns:
         cols = []
         vars_ = []
+        acol = {}  # star layout: the anchor's genotypes, copied by most variants of its chromosome (r2 = 1)
         for j in range(ns):
             c = str(rng.choice(chroms))
-            cols.append(_snp_col(rng, n, cols))
+            if star and c in acol and rng.random() < 0.7:
+                cols.append([list(x) for x in acol[c]] if rng.random() < 0.8 else [[1 - x[0], 1 - x[1]] for x in acol[c]])
+            else:
+                cols.append(_snp_col(rng, n, cols))
+            if star and c not in acol:
+                if len({x[0] + x[1] for x in cols[-1]}) == 1:
+                    cols[-1][0] = [1 - cols[-1][0][0], cols[-1][0][1]]  # the anchor is not constant
+                acol[c] = cols[-1]
             ref, alt = rng.choice(list("ACGT"), size=2, replace=False).tolist()
             vars_.append({"id": f"snp{j}", "chrom": c, "pos": new_pos(c), "ref": ref, "alt": alt, "calls": cols[-1]})
+        anchors = {(c, p) for c, p in anchor.items()}
         vars_.sort(key=lambda v: (chroms.index(v["chrom"]), v["pos"]))
         snp = {"samples": snp_samples, "vars": vars_, "fmt": "pgen" if rng.random() < 0.3 else "vcf"}
     if nt:
@@ -169,6 +245,14 @@ def gen_clump(rng):
                         calls[s][1] = 255
             if rng.random() < 0.05:
                 calls = [[255, 255] for _ in range(m)]
+            elif star and snp and rng.random() < 0.6:
+                # in LD with the SNP anchor of the chromosome: allele index = the anchor's allele (shared samples)
+                a = next((v for v in snp["vars"] if (v["chrom"], v["pos"]) in anchors and v["chrom"] == c), None)
+                if a is not None:
+                    calls = [list(a["calls"][snp_samples.index(x)]) if x in snp_samples else calls[i]
+                             for i, x in enumerate(str_samples)]
+            elif star and vars_ and rng.random() < 0.6:
+                calls = [[min(x, len(alt_ns)) if x < 254 else x for x in g] for g in vars_[0]["calls"]]
             vars_.append({"id": f"str{j}", "chrom": c, "pos": new_pos(c), "motif": motif, "ref_n": ref_n,
                           "alt_ns": alt_ns, "calls": calls})
         vars_.sort(key=lambda v: (chroms.index(v["chrom"]), v["pos"]))
@@ -183,7 +267,10 @@ def gen_clump(rng):
         header = [str(x) for x in rng.permutation([fields["id"], fields["p"], fields["chrom"], fields["pos"]] + extra)]
         rows = []
         for v in [vars_[i] for i in rng.permutation(len(vars_))] if rng.random() < 0.5 else vars_:
-            val = {fields["id"]: v["id"], fields["p"]: str(rng.choice(P_POOL)), fields["chrom"]: v["chrom"],
+            pv = str(rng.choice(P_POOL))
+            if star and anchor.get(v["chrom"]) == v["pos"] and rng.random() < 0.7:
+                pv = str(rng.choice(["0", "1e-300", "1e-10"]))  # the anchor is (one of) the first index variants
+            val = {fields["id"]: v["id"], fields["p"]: pv, fields["chrom"]: v["chrom"],
                    fields["pos"]: str(v["pos"])}
             rows.append([val.get(h, str(rng.choice(["ADD", ".", "2504", "-0.43", "G"]))) for h in header])
         return {"header": header, "hash": bool(rng.random() < 0.5), "rows": rows}
@@ -191,7 +278,8 @@ def gen_clump(rng):
     cfg = {"snp": snp, "str": strs, "stats_snp": table(snp["vars"]) if snp else None,
            "stats_str": table(strs["vars"]) if strs else None, "fields": fields,
            "p1": str(rng.choice(P1_POOL)), "p2": str(rng.choice(P2_POOL)), "kb": kb, "r2": str(rng.choice(R2_POOL)),
-           "ld": ld, "kind": "wellformed", "via": "cli" if rng.random() < 0.2 else "api"}
+           "ld": ld, "kind": "wellformed", "via": "cli" if rng.random() < 0.2 and not kb.startswith("-") else "api",
+           "kbclass": kbclass, "layout": "star" if star else "grid"}
     if strs and any(all(max(c) >= 254 for c in v["calls"]) for v in strs["vars"]) and rng.random() < 0.6:
         cfg["r2"] = "0"  # no valid sample: ComputeLD returns exactly 0, which does not exceed a threshold of 0
     # malformed / special streams
@@ -231,6 +319,12 @@ def gen_clump(rng):
     elif r < 0.22 and len(t["rows"]) > 1:
         t["rows"].insert(int(rng.integers(1, len(t["rows"]))), [])
         cfg["kind"] = "blank-line"
+    elif r < 0.29 and ld == "Pearson" and sum(len(x["rows"]) for x in tabs) > 1:
+        # two rows (of one table or of the two tables) carry the same ID: they remain two variants
+        cells = [(x, i) for x in tabs for i in range(len(x["rows"]))]
+        (ta, ia), (tb, ib) = [cells[i] for i in rng.choice(len(cells), size=2, replace=False)]
+        tb["rows"][ib][tb["header"].index(fields["id"])] = ta["rows"][ia][ta["header"].index(fields["id"])]
+        cfg["kind"] = "duplicate-id"
     _avoid_threshold(cfg)
     return cfg
 
@@ -372,7 +466,7 @@ class Clump(Relation):
                ("haptools/clump.py", "clumpstr")]
 
     def preamble(self):
-        return "From Coq Require Import QArith.\nOpen Scope Z_scope."
+        return "From Coq Require Import QArith PrimFloat.\nOpen Scope Z_scope."
 
     def generate(self, rng, n, tier):
         return [gen_clump(rng) for _ in range(n)]
@@ -456,8 +550,13 @@ class Clump(Relation):
                 if not ln:
                     continue
                 t = ln.split("\t")
-                members = [m.split(" ")[0] for m in t[5].split(",")] if t[5] else []
-                rows.append([t[0], members, t[1], t[2], t[3], t[4]])
+                if len(t) != 6:
+                    return {"err": 97, "msg": "row format changed"}
+                members = [m.split(" ") for m in t[5].split(",")] if t[5] else []
+                if any(len(m) != 5 for m in members):
+                    return {"err": 97, "msg": "member format changed"}
+                # [ID, member IDs, CHROM, POS, P, VARTYPE, members as printed (ID CHROM POS P VARTYPE)]
+                rows.append([t[0], [m[0] for m in members], t[1], t[2], t[3], t[4], members])
             return {"ok": rows, "table": table}
         finally:
             cl.LoadVariant, cl.ComputeLD = saved
@@ -489,8 +588,10 @@ class Clump(Relation):
         f = cfg["fields"]
         fields = f"(mkf {toks(f['id'])} {toks(f['p'])} {toks(f['chrom'])} {toks(f['pos'])})"
         k = (f"(mkcfg {h1} {r1} {h2} {r2} {fields} {L.q(float(cfg['p1']))} {L.q(float(cfg['p2']))} "
-             f"{L.q(Fraction(cfg['kb']))} {L.q(float(cfg['r2']))} {L.b(cfg['ld'] == 'Exact')} "
+             f"{L.q(float(cfg['r2']))} {L.b(cfg['ld'] == 'Exact')} "
              f"{gset(cfg['snp'], lambda v: v['calls'])} {gset(cfg['str'], str_values)})")
+        # clump_kb: the float64 the code receives (bit exact) and the decimal typed
+        kbf, kbdec = L.hexfloat(float(cfg["kb"])), L.q(Fraction(cfg["kb"]))
         if not isinstance(obs, dict) or ("ok" not in obs and "err" not in obs):
             obs = {"err": (obs or {}).get("kind", 99), "table": []}
         table = []
@@ -500,18 +601,31 @@ class Clump(Relation):
                     continue
                 qv = "None" if v is None else f"(Some (Qmake {L.z(int(v[0]))} {int(v[1])}%positive))"
                 table.append(f"({toks(a)}, {toks(b)}, {qv})")
-        o = L.res(obs, lambda rows: L.lst(rows, lambda r: f"({toks(r[0])}, {L.zl([toks(m) for m in r[1]])})"))
-        return f"(mkcc {k} {L.lst(table)} {o})"
+        if "ok" in obs:
+            try:
+                def vrow(i, c, pos, pv, ty):
+                    return (f"({toks(i)}, {toks(c)}, {L.z(int(pos))}, {L.q(Fraction(float(pv)))}, "
+                            f"{L.z({'SNP': 0, 'STR': 1}[ty])})")
+
+                o = "(Ok " + L.lst(obs["ok"], lambda r: f"({vrow(r[0], r[2], r[3], r[4], r[5])}, "
+                                                          f"{L.lst(r[6], lambda m: vrow(*m))})") + ")"
+            except (ValueError, KeyError, OverflowError):
+                o = "(Err 97)"
+        else:
+            o = L.res(obs)
+        return f"(mkcc {k} {kbf} {kbdec} {L.lst(table)} {o})"
 
     def nontrivial(self, cfg, obs):
-        if cfg["kind"] not in ("wellformed", "exhaustive", "blank-line") or not isinstance(obs, dict) or "ok" not in obs:
+        if cfg["kind"] not in ("wellformed", "exhaustive", "blank-line", "duplicate-id") or not isinstance(obs, dict) or "ok" not in obs:
             return False
         rows = obs["ok"]
         return len(rows) >= 2 or any(set(r[1]) - {r[0]} for r in rows)
 
     def classes(self, cfg, obs):
         out = [cfg["kind"], "mode=" + ("mixed" if cfg["snp"] and cfg["str"] else "snp" if cfg["snp"] else "str"),
-               "ld=" + cfg["ld"], "kb=" + cfg["kb"]]
+               "ld=" + cfg["ld"], cfg.get("kbclass", "kb:corpus"), "layout=" + cfg.get("layout", "fixed"),
+               "p1>1" if float(cfg["p1"]) > 1 else "p1<=1"]
+        out += self._window_classes(cfg, obs)
         if cfg["snp"]:
             out.append("snpfmt=" + cfg["snp"]["fmt"])
         if cfg["str"]:
@@ -532,6 +646,26 @@ class Clump(Relation):
         elif isinstance(obs, dict) and "__timeout__" in obs:
             out.append("timeout")
         return out
+
+    def _window_classes(self, cfg, obs):
+        """which boundary distances occur between two variants of one chromosome (in bp, relative to kb*1000), and
+        whether a variant at such a distance from an index is / is not a member of its clump"""
+        lo, hi = kb_bounds(cfg["kb"])
+        vs = [(v["chrom"], v["pos"], v["id"]) for g in (cfg["snp"], cfg["str"]) if g for v in g["vars"]]
+        names = {lo - 1: "floor-1", lo: "floor", hi: "ceil", hi + 1: "ceil+1"} if hi != lo else \
+                {lo - 1: "kb-1bp", lo: "kb-exactly", lo + 1: "kb+1bp"}
+        out = set()
+        member = {}
+        if isinstance(obs, dict) and "ok" in obs:
+            member = {r[0]: set(r[1]) for r in obs["ok"]}
+        for a in vs:
+            for b in vs:
+                if a is not b and a[0] == b[0] and abs(a[1] - b[1]) in names and abs(a[1] - b[1]) > 0:
+                    tag = "dist=" + names[abs(a[1] - b[1])]
+                    out.add(tag)
+                    if a[2] in member:
+                        out.add(tag + (":member" if b[2] in member[a[2]] else ":not-member"))
+        return sorted(out)
 
     def shrink(self, cfg):
         for key, skey in (("snp", "stats_snp"), ("str", "stats_str")):
@@ -556,6 +690,8 @@ class Clump(Relation):
             yield dict(cfg, p1=p1)
         for kb in KB_POOL:
             yield dict(cfg, kb=kb)
+        for _ in range(8):
+            yield dict(cfg, kb=gen_kb(rng)[0])
 
     def signature(self, cfg, obs):
         mode = "mixed" if cfg["snp"] and cfg["str"] else "snp" if cfg["snp"] else "str"
@@ -637,15 +773,22 @@ class ComputeLDRel(Relation):
         import haptools.clump as cl
         from haptools.logging import getLogger
 
-        roots = []
-        stats0 = cl._CalcLDStats
+        roots, allroots = [], []
+        stats0, best0 = cl._CalcLDStats, cl._CalcBestRoot
 
         def stats(f00, p, q, gt_counts, n):
             fr = Fraction(float(f00))
             roots.append([str(fr.numerator), str(fr.denominator)])
             return stats0(f00, p, q, gt_counts, n)
 
-        cl._CalcLDStats = stats
+        def best(real_roots, *a, **k):
+            for x in real_roots:
+                x = float(x)
+                fr = Fraction(x) if x == x and abs(x) != float("inf") else Fraction(10**9)
+                allroots.append([str(fr.numerator), str(fr.denominator)])
+            return best0(real_roots, *a, **k)
+
+        cl._CalcLDStats, cl._CalcBestRoot = stats, best
         try:
             _, r2 = cl.ComputeLD(np.array(inp["cand"], dtype=np.uint8).reshape(-1, 2),
                                  np.array(inp["idx"], dtype=np.uint8).reshape(-1, 2), inp["ld"],
@@ -653,12 +796,12 @@ class ComputeLDRel(Relation):
         except Exception as e:  # noqa
             return {"err": err_kind(e), "cls": type(e).__name__, "msg": str(e)[:160]}
         finally:
-            cl._CalcLDStats = stats0
+            cl._CalcLDStats, cl._CalcBestRoot = stats0, best0
         r2 = float(r2)
         if r2 != r2:
-            return {"ok": None, "roots": roots}
+            return {"ok": None, "roots": roots, "allroots": allroots}
         fr = Fraction(r2)
-        return {"ok": [str(fr.numerator), str(fr.denominator)], "float": r2, "roots": roots}
+        return {"ok": [str(fr.numerator), str(fr.denominator)], "float": r2, "roots": roots, "allroots": allroots}
 
     def encode(self, inp, obs):
         pr = lambda c: f"({L.z(c[0])}, {L.z(c[1])})"
@@ -667,7 +810,7 @@ class ComputeLDRel(Relation):
         qm = lambda x: f"(Qmake {L.z(int(x[0]))} {int(x[1])}%positive)"
         o = L.res(obs, lambda v: L.opt(v, qm))
         return (f"(mkd {L.lst(inp['cand'], pr)} {L.lst(inp['idx'], pr)} {L.b(inp['ld'] == 'Exact')} {o} "
-                f"{L.lst(obs.get('roots') or [], qm)})")
+                f"{L.lst(obs.get('roots') or [], qm)} {L.lst(obs.get('allroots') or [], qm)})")
 
     def _valid(self, inp):
         return [(a[0] + a[1], b[0] + b[1]) for a, b in zip(inp["cand"], inp["idx"]) if max(a) < 254 and max(b) < 254]
@@ -693,6 +836,7 @@ class ComputeLDRel(Relation):
             out.append(f"r2={obs['float']}")
         if isinstance(obs, dict) and inp["ld"] == "Exact" and "ok" in obs and obs["ok"] is not None:
             out.append(f"roots-in-range={len(obs.get('roots') or [])}")
+            out.append(f"real-roots={len(obs.get('allroots') or [])}")
         return out
 
     def shrink(self, inp):
